@@ -37,7 +37,7 @@ fn perturb(name: &str) -> Vec<String> {
 }
 
 pub fn run(cfg: &Cfg, rep: &mut Report) {
-    rep.rule = "numbers: every candidate n is converted by from_u32/from_bits of every enum/mask and compared with the declaration text (thorough: all 2^32 numbers of every type); names: every declared name, alias and 11 perturbations per name through FromStr; declarations vs frozen reference and spec anchors. distinct_nontrivial = distinct (type, outcome-class) pairs plus distinct declared (type,value) and (type,name) facts confirmed".into();
+    rep.rule = "numbers: every candidate n is converted by from_u32/from_bits of every enum/mask and compared with the declaration text (thorough: all 2^32 numbers of every type); names: every declared name, alias and 11 perturbations per name through FromStr; declarations vs frozen reference and spec anchors; stage `parser-context`: every kind an opcode or an enumerant parameter carries, with declared and perturbed values, inside a parsed module under 9 header versions (known, future, nonsense) - accepted iff declared, by the reference parser. distinct_nontrivial = distinct (type, outcome-class) pairs plus distinct declared (type,value) and (type,name) facts confirmed".into();
     rep.assumptions.push("the frozen reference (dumped from the pinned tree) equals the Khronos grammar of SDK 1.4.309.0".into());
     rep.assumptions.push("spec anchors are a hand-transcribed subset of the SPIR-V 1.6 specification".into());
     let miri = cfg.mode == "miri";
@@ -269,6 +269,74 @@ pub fn run(cfg: &Cfg, rep: &mut Report) {
             }
         }
     });
+
+    // ---- stage: the same acceptance rule where conversions happen in practice - inside a parse. Every kind
+    //      that an opcode (or an enumerant parameter) carries, declared and undeclared values, under header
+    //      versions the grammar knows, does not know yet, and nonsense; verdict by the reference parser
+    if !miri {
+        use crate::gram::{db, kind_name};
+        use crate::geninst::{Form, Gen, LitStyle};
+        let d = db();
+        let carriers = crate::mon::c02::carriers();
+        let mut kinds: Vec<crate::gram::K> = carriers.keys().copied().collect();
+        kinds.sort_by_key(|k| kind_name(*k));
+        const VERSIONS: &[u32] = &[0x0001_0000, 0x0001_0300, 0x0001_0600, 0x0001_0700, 0x0001_0a00, 0x0001_ff00, 0x0002_0000, 0x0000_0000, 0x00ff_ff00];
+        let per_kind = cfg.n(120, 20_000);
+        let kinds_ref = &kinds;
+        run_stage(cfg, rep, "parser-context", kinds.len() as u64 * per_kind, |idx, rng, r| {
+            let k = kinds_ref[(idx % kinds_ref.len() as u64) as usize];
+            let cs = &carriers[&k];
+            let c = &cs[rng.below(cs.len())];
+            let declared = rng.chance(1, 2);
+            let v = match (decls::kind_class(k), declared) {
+                (0, true) => {
+                    let vals = d.enum_values(k);
+                    vals[rng.below(vals.len())].1
+                }
+                (0, false) => {
+                    let vals = d.enum_values(k);
+                    let base = vals[rng.below(vals.len())].1;
+                    let any = rng.u32();
+                    *rng.pick(&[base.wrapping_add(1), base.wrapping_sub(1), base | 0x8000_0000, base | 0x1_0000, 0x7fff_ffff, u32::MAX, any])
+                }
+                (_, true) => rng.u32() & d.mask_all(k),
+                (_, false) => {
+                    let free = !d.mask_all(k);
+                    let mut b = 1u32 << rng.below(32);
+                    for _ in 0..32 {
+                        if b & free != 0 {
+                            break;
+                        }
+                        b = b.rotate_left(1);
+                    }
+                    (rng.u32() & d.mask_all(k)) | (b & free)
+                }
+            };
+            let mut gen = Gen::with_id_policy(rng);
+            gen.lit = LitStyle::Marker;
+            let mut ctx = crate::mon::c02::context(&mut gen);
+            let mut forces = c.pre.clone();
+            forces.push((k, v));
+            gen.forces = forces;
+            let x = match gen.inst(rng, &d.insts[c.op], Form::Max) {
+                Some(x) if gen.forces.is_empty() => x,
+                _ => {
+                    r.count("parser_context_not_generable", 1);
+                    return;
+                }
+            };
+            ctx.push(x);
+            let version = *rng.pick(VERSIONS);
+            let (w, _m, _s) = crate::genmod::encode_module(version, rng.u32(), gen.next_id, &ctx, None);
+            let bytes = crate::util::words_to_bytes(&w);
+            let label = format!("{} value {:#x} ({}) in Op{} under header version {:#x}", kind_name(k), v, if declared { "declared" } else { "perturbed" }, d.insts[c.op].opname, version);
+            let rp = || crate::util::replay_ref(cfg, "parser-context", idx).set("label", label.clone());
+            if crate::mon::c03::compare(&bytes, &label, r, &rp, "C08").is_some() {
+                r.nontrivial(format!("ctx:{}:{}:{:x}", kind_name(k), declared, version));
+            }
+            r.count("parser_context_cases", 1);
+        });
+    }
 
     // ---- stage: declarations vs frozen reference and anchors (single case)
     run_stage(cfg, rep, "reference", 1, |idx, _rng, r| {
